@@ -1888,6 +1888,19 @@ class TaskPool:
                 return None
 
         if not itask.transient:
+            if prev_status is not None and not any(
+                old_fnums == itask.flow_nums
+                for _, _, old_fnums, _ in (
+                    self.workflow_db_mgr.pri_dao.select_prev_instances(
+                        name, str(point)
+                    )
+                )
+            ):
+                # The task has history in an overlapping set of flows only:
+                # DB updates are keyed by the exact flow numbers, so it
+                # needs rows of its own.
+                self.db_add_new_flow_rows(itask)
+
             if (name, point) in self.tasks_to_hold:
                 LOG.info(f"[{itask}] holding (as requested earlier)")
                 self.hold_active_task(itask)
